@@ -30,7 +30,8 @@ T9 = "###   ########.fr       */"
 BODY = "\nint\tmain(void)\n{\n\treturn (0);\n}\n"
 
 
-def pattern_from_source(path="/repo/norminette/rules/check_header.py"):
+def pattern_from_source(path=None):
+    path = path or (__import__("symx").REPO + "/norminette/rules/check_header.py")
     """the header pattern as written in the current source: the one string constant of check_header.py that is a
     regular expression for the By: / Created: / Updated: lines and is not commented out -- wherever it sits
     (function body, module level, class attribute), so that moving it is not an engine gap"""
